@@ -513,13 +513,49 @@ class SymSeq(Model):
   def to_symseq(self, ip, ty):
     return self
 
+  def _filter_comp(self, ip, node, fr):
+    """[x for x in seq if cond(x)] with a pure condition: the order-preserving sub-list of the
+    elements that satisfy the condition (A-LIB); ghost index maps src / dst are kept on the result"""
+    import ast as _ast
+    from .interp import Frame
+    g = node.generators[0]
+    if not (isinstance(node.elt, _ast.Name) and isinstance(g.target, _ast.Name) and node.elt.id == g.target.id):
+      raise EngineError("filter comprehension with a non-identity element expression")
+    ctx = ip.ctx
+
+    def cond_at(term):
+      sub = Frame(fr.func, fr.env, parent=fr)
+      ip.assign(g.target, self.ty.dec(term), sub)
+      mark = len(ctx.pc)
+      c = z3.BoolVal(True)
+      for cnode in g.ifs:
+        v = ip.truth(ip.eval(cnode, sub))
+        c = z3.And(c, v if is_z3(v) else z3.BoolVal(bool(v)))
+      if len(ctx.pc) != mark:
+        raise EngineError("comprehension condition is not pure")
+      return c
+    out = SymSeq.fresh(ip, self.ty, 'filtered')
+    src = z3.Function(ctx.fresh_name('fsrc'), z3.IntSort(), z3.IntSort())
+    dst = z3.Function(ctx.fresh_name('fdst'), z3.IntSort(), z3.IntSort())
+    a, b, j = z3.Int('a?'), z3.Int('b?'), z3.Int('j?')
+    n, m = out.length(), self.length()
+    ctx.assume(n <= m)
+    ctx.assume(z3.ForAll([a], z3.Implies(z3.And(0 <= a, a < n),
+                                         z3.And(0 <= src(a), src(a) < m, out.term[a] == self.term[src(a)],
+                                                cond_at(self.term[src(a)]), dst(src(a)) == a))))
+    ctx.assume(z3.ForAll([a, b], z3.Implies(z3.And(0 <= a, a < b, b < n), src(a) < src(b))))
+    ctx.assume(z3.ForAll([j], z3.Implies(z3.And(0 <= j, j < m, cond_at(self.term[j])),
+                                         z3.And(0 <= dst(j), dst(j) < n, src(dst(j)) == j))))
+    out.filter_src, out.filter_dst, out.filter_of = src, dst, self
+    return out
+
   def py_listcomp(self, ip, node, fr):
     """[elt for target in <this sequence>] without conditions, for a pure element expression:
     a sequence of the same length whose i-th element is elt evaluated on the i-th element."""
     from .interp import Frame
     g = node.generators[0]
     if g.ifs:
-      raise EngineError("comprehension with a condition over a symbolic sequence needs a model")
+      return self._filter_comp(ip, node, fr)
     i = z3.Int('i?')
     sub = Frame(fr.func, fr.env, parent=fr)
     ip.assign(g.target, self.ty.dec(self.term[i]), sub)
